@@ -77,6 +77,15 @@ def run_one(sched, prog, leaves, symbolic, hyps_fn=None):
     extra_ops(res)
     for h in list(held[:-1]):
         extra_ops(h["f"])
+    try:
+        from funsor.terms import Tuple, to_funsor
+        fs = [h["f"] for h in held]
+        if len(fs) >= 2:
+            Tuple(tuple(fs))
+            Tuple(tuple(reversed(fs)))
+            to_funsor((fs[-1], fs[0]))
+    except Exception:
+        pass
     problems, symdiffs = [], []
     for name, s in snaps:
         if symbolic:
